@@ -37,6 +37,10 @@ func signImageLayout(id string) peLayout {
 		return peLayout{bits: 32, lfanew: 128, secs: []peSec{{13, 2}, {32, 1}}, slack: 0, gappos: 1, trail: 3, ndirs: 6}
 	case "u0n":
 		return peLayout{bits: 32, lfanew: 64, secs: nil, slack: 0, gappos: 1, trail: 0}
+	case "ug1": // unreferenced bytes between the headers and the first section, trailing data
+		return peLayout{bits: 64, lfanew: 64, secs: []peSec{{40, 1}, {24, 2}}, slack: 8, gap: 5, gappos: 1, trail: 11}
+	case "ug2": // unreferenced bytes between the two sections
+		return peLayout{bits: 32, lfanew: 128, secs: []peSec{{13, 2}, {32, 1}}, slack: 0, gap: 5, gappos: 2, trail: 3}
 	}
 	return peLayout{bits: 64, lfanew: 64, secs: []peSec{{16, 1}}, slack: 0, gappos: 1, trail: 1}
 }
@@ -88,7 +92,7 @@ func projectSigned(out, orig []byte, img *peImage, before []byte) M {
 		}
 	}
 	o["pad_zero"] = pz
-	specDigest := independentDigest(out, img.cksum, img.dd4, end)
+	specDigest := procedureDigest(out, img, end)
 	entries := []M{}
 	for p := end; size > 0 && p+8 <= len(out); {
 		dw := int(binary.LittleEndian.Uint32(out[p:]))
@@ -226,7 +230,7 @@ func runPeSign(sc M) {
 			case "hash":
 				alg := map[string]crypto.Hash{"sha1": crypto.SHA1, "sha256": crypto.SHA256, "sha512": crypto.SHA512}[c]
 				hh := alg.New()
-				hh.Write(peHashInput(p.Bytes()))
+				hh.Write(procedureInput(p.Bytes(), img, imageEnd(p.Bytes(), img)))
 				ev["res"] = "equal"
 				if !bytes.Equal(p.Hash(alg), hh.Sum(nil)) {
 					ev["res"] = "differs"
